@@ -339,6 +339,45 @@ pub extern "C" fn cs_final_cas() {
     cover(13);
 }
 
+/// three threads, one operation each: cas(obj0 -> obj1) || swap(obj2) || swap(obj0 again): the A-B-A
+/// interleavings are among the schedules. Every value put in must come out exactly once.
+#[no_mangle]
+pub extern "C" fn cs_w_swap_pool2_rec() {
+    let x = a().swap(pool(2).clone());
+    merge();
+    *CX_RES[1].mu() = check_payload(&x, 23);
+    drop(x);
+    merge();
+}
+#[no_mangle]
+pub extern "C" fn cs_w_swap_pool0_rec() {
+    let x = a().swap(pool(0).clone());
+    merge();
+    *CX_RES[2].mu() = check_payload(&x, 23);
+    drop(x);
+    merge();
+}
+#[no_mangle]
+pub extern "C" fn cs_final_cas3() {
+    let g = a().load();
+    merge();
+    let f = check_payload(&g, 41);
+    drop(g);
+    merge();
+    let (p, x2, x3) = (*CX_RES[0].get(), *CX_RES[1].get(), *CX_RES[2].get());
+    let swapped = p == 0;
+    vassert(p == 0 || p == 2, 60);
+    // put in: obj0 twice (initially and by the third thread), obj2 once, obj1 iff the cas claims success
+    let inn = [2usize, swapped as usize, 1, 0];
+    for v in 0..POOL {
+        let out = (swapped && p == v) as usize + (x2 == v) as usize + (x3 == v) as usize + (f == v) as usize;
+        vassert(out == inn[v], 66 + v as u32);
+    }
+    expect_counts(f, usize::MAX);
+    vassert(slots_all_empty(), 42);
+    cover(13);
+}
+
 /// rcu "increment": install the next pool object on top of exactly the one that was read
 #[no_mangle]
 pub extern "C" fn cs_w_rcu_t1() {
